@@ -24,14 +24,15 @@ def _tree_hash(root, extra=''):
 def dump_mir(crate='elvis-core', features=None, shim=None):
     """returns (mir_text, src_root).  Regenerated whenever any source file changed (content hash)."""
     src = os.path.join(REPO, 'sim', crate)
-    key = _tree_hash(src, (features or '') + repr(shim))
+    key = _tree_hash(src, (features or '') + (repr((shim.get('name'), shim.get('modules'))) if shim else ''))
     if shim:
         for extra in shim.get('hash_files', []):
             key = hashlib.sha256((key + open(extra).read()).encode()).hexdigest()[:20]
     mdir = os.path.join(CACHE, 'mir')
     os.makedirs(mdir, exist_ok=True)
-    out = os.path.join(mdir, f'{crate}-{key}.mir')
-    srcsnap = os.path.join(mdir, f'{crate}-{key}.src')
+    tag = crate if not shim else shim.get('name', 'shim')
+    out = os.path.join(mdir, f'{tag}-{key}.mir')
+    srcsnap = os.path.join(mdir, f'{tag}-{key}.src')
     if os.path.exists(out) and os.path.exists(srcsnap):
         return open(out).read(), srcsnap
     scratch = os.path.join(os.environ.get('VERIF_SCRATCH', '/tmp/elvis-verif'), f'mir-{crate}.{os.getpid()}')
@@ -97,3 +98,41 @@ def new_exec(fns, enums, src_root, message_model=True):
         msgmodel.install(ex)
     models.install(ex)
     return ex
+
+
+def load_shim(modules, name='shim'):
+    """MIR of files of the `elvis` crate (which drags in clap/tonic/...) through a tiny shim crate that #[path]-includes them
+    next to a path dependency on the scratch copy of elvis-core.  Returns elvis-core's functions merged with the shim's."""
+    fns, enums, src_root = load('elvis-core')
+    files = [os.path.join(REPO, 'sim', 'elvis', 'src', m) for m in modules]
+
+    def prepare(scratch, core_dst):
+        d = os.path.join(scratch, name)
+        os.makedirs(os.path.join(d, 'src'))
+        with open(os.path.join(d, 'Cargo.toml'), 'w') as f:
+            f.write('[package]\nname = "%s"\nversion = "0.0.0"\nedition = "2021"\n\n[dependencies]\nelvis-core = { path = "../elvis-core" }\n'
+                    'tokio = { version = "1.23.0", features = ["rt", "rt-multi-thread", "time", "macros", "signal", "sync"] }\nasync-trait = "0.1.68"\ntracing = "0.1.37"\n\n[workspace]\n' % name)
+        lib = ['#![allow(unused, dead_code)]']
+        for m, fp in zip(modules, files):
+            dst = os.path.join(d, 'src', os.path.basename(m))
+            shutil.copy(fp, dst)
+            lib.append(f'pub mod {os.path.splitext(os.path.basename(m))[0]};')
+        with open(os.path.join(d, 'src', 'lib.rs'), 'w') as f:
+            f.write('\n'.join(lib) + '\n')
+        # elvis-core must not declare its own workspace when used as a path dependency of the shim's workspace root
+        ct = os.path.join(core_dst, 'Cargo.toml')
+        s = open(ct).read().replace('\n[workspace]\n', '\n')
+        open(ct, 'w').write(s)
+        shutil.copy(os.path.join(REPO, 'sim', 'Cargo.lock'), os.path.join(d, 'Cargo.lock'))
+        return d
+
+    text, shim_root = dump_mir('elvis-core', shim={'prepare': prepare, 'hash_files': files, 'name': name, 'modules': list(modules)})
+    sf = core.parse_mir(text)
+    senums = core.parse_enums(os.path.join(shim_root, 'src'))
+    merged = dict(fns)
+    for k, v in sf.items():
+        v.root = shim_root
+        merged['shim::' + k if k in merged else k] = v
+    en = dict(enums)
+    en.update(senums)
+    return merged, en, src_root, shim_root
